@@ -69,6 +69,14 @@ def make_case(seed, index, tier):
                     act['owned'] = True
                     if rng.random() < 0.4:
                         act['fail'] = 'cancelled'    # somebody cancels that task meanwhile
+        if acts and any(act['fail'] is True for act in acts) and rng.random() < 0.5 \
+                and not any(act['fail'] in ('join', 'cancelled') or act.get('owned')
+                            for act in acts):
+            # an activity that runs long and whose clean-up fails when it is aborted: that
+            # failure is reported together with the one that caused the abort
+            dirty = rng.choice(acts)
+            if dirty['fail'] is False:
+                dirty.update(d1=100, dirty=True)
     else:
         spec['count'] = rng.choice([0, 1, 1, 2, n, None, None, n + 1, max(0, n - 1)])
         spec['work'] = rng.choice([0, 0, 0.5, 1, 2])
@@ -181,6 +189,10 @@ def build_for(case):
                     return act['value']
                 except GeneratorExit:
                     arena.log(name, 'closed')
+                    if act.get('dirty'):
+                        exc = SameError(name + '!')
+                        exc.tag = name + '!'
+                        raise exc
                     raise
             coro = run()
             coro.__name__ = coro.__qualname__ = 'act%d' % number
@@ -360,8 +372,11 @@ def check(sess, arena, checker, outcome, plan):
                 checker.stats['collect_failures'] += 1
                 first_fail = min(acts[i]['d1'] + acts[i]['d2'] for i in failing) + t0
                 want = ['act%d' % number for number, when, failed in order if failed]
-                fatal = [name for name in want
-                         if issubclass(failure_type(int(name[3:]), 'collect'), PRIVILEGED)]
+                # (plus the clean-up failures of the activities that were aborted because of it)
+                want += ['act%d!' % number for number, act in enumerate(acts)
+                         if act.get('dirty')]
+                fatal = [name for name in want if '!' not in name
+                         and issubclass(failure_type(int(name[3:]), 'collect'), PRIVILEGED)]
                 assert not joins
                 if fatal:
                     # AssertionError / SystemExit / KeyboardInterrupt (and their subclasses) of
@@ -382,7 +397,8 @@ def check(sess, arena, checker, outcome, plan):
                                       'activities %s fail but collect returned %r' % (
                                           failing, result[1]))
                 else:
-                    if result[1] != want:
+                    if sorted(result[1]) != sorted(want) or [n for n in result[1] if '!' not in n] \
+                            != [n for n in want if '!' not in n]:
                         checker.violation('collect-wrong-failures',
                                           'collect raised Concurrent of %s, logged failures %s'
                                           % (result[1], want))
